@@ -58,6 +58,18 @@ def size_derived_in(prov, sroots):
     return has
 
 
+def lower_bound(it, st, sym):
+    """lower bound of a symbol: its interval, improved by recorded relations x <= sym (e.g. a summand of a sum)"""
+    lo = it.iv(st, sym)[0]
+    for (x, op, y) in st.rel:
+        if op in ("<=", "<") and it.rel_le(st, y, sym):
+            xl = it.iv(st, x)[0]
+            if xl is not None:
+                xl = xl + (1 if op == "<" else 0)
+                lo = xl if lo is None else max(lo, xl)
+    return lo
+
+
 def derived_ub(it, st, sym):
     """provenance of an upper bound of `sym`: recorded directly by a comparison, or through a product
     `sym * k <= bound` with k >= 1 on the current path"""
@@ -70,7 +82,7 @@ def derived_ub(it, st, sym):
             a, b = dd[2], dd[3]
             other = b if a == sym else (a if b == sym else None)
             if other is not None:
-                lo = it.iv(st, other)[0]
+                lo = lower_bound(it, st, other)
                 if lo is not None and lo >= 1:
                     return pub
     return None
